@@ -2,7 +2,9 @@
 Require Extraction.
 Require Import ExtrOcamlBasic.
 From Coq Require Import ZArith NArith.
-From Astisub Require Import Kit.Base Model.Ops.
+From Astisub Require Import Kit.Base Kit.Str Model.Ops Model.Dur.
 Extraction "model.ml"
   Z.add Z.mul Z.opp Z.div Z.modulo Z.of_N Z.to_N N.add N.mul
-  order merge add_dur force_duration fragment unfragment optimize remove_styling item_text.
+  order merge add_dur force_duration fragment unfragment optimize remove_styling item_text
+  format_duration parse_duration parse_srt format_stl format_stl_bytes parse_stl parse_stl_bytes
+  trim_space split_byte atoi itoa_z fields.
